@@ -15,17 +15,39 @@ from .common import walk_own, call_name
 SKIP = ('py_stringsimjoin/join/disk_edit_distance_join.py', 'py_stringsimjoin/utils/missing_value_handler_disk.py')
 
 
-def run(ctx, only=None):
-    """only: restrict to these module paths (floors are then scaled to what those modules hold)"""
+def run(ctx, only=None, callees=None):
+    """only: restrict to these module paths (floors are then scaled to what those modules hold);
+    callees: with `only`, additionally type the argument bindings (S2) of every call, in any module, whose resolved
+    callee is defined in one of these module paths (the callers of a sided helper are where its sides get swapped)"""
     ctx.group('R-SIDE')
     repo = ctx.repo
     cnt = dict(S1=0, S2=0, S3=0, S4=0, S5=0, S6=0, S7=0)
     for f in repo.all_funcs():
         if f.module.relpath in SKIP:
             continue
-        if only is not None and f.module.relpath not in only:
+        outside = only is not None and f.module.relpath not in only
+        if outside and not callees:
             continue
         for n in walk_own(f.node):
+            if outside:
+                # a caller of one of the `callees` modules: only its bindings to that helper
+                if not isinstance(n, ast.Call):
+                    continue
+                r = repo.resolve_call(f, n)
+                if r is None or r[0].module.relpath not in callees:
+                    continue
+                for p, a in r[2].items():
+                    if r[0].defaults.get(p) is a:
+                        continue
+                    ps = side_of_name(p)
+                    if ps:
+                        cnt['S2'] += 1
+                        es = expr_side(a)
+                        if es and es != ps:
+                            ctx.check('R-SIDE/S2', f, '%s(%s=%s)' % (r[0].qual, p, U(a)[:40]), False,
+                                      'the %s-side parameter `%s` of %s receives the %s-side argument `%s`'
+                                      % (ps, p, r[0].qual, es, U(a)[:80]), n)
+                continue
             if isinstance(n, ast.Assign) and len(n.targets) == 1:
                 tg = n.targets[0]
                 tgs = [tg] if isinstance(tg, ast.Name) else ([e for e in tg.elts if isinstance(e, ast.Name)] if isinstance(tg, ast.Tuple) else [])
